@@ -390,10 +390,20 @@ package restful
 //@ requires c != nil && req != nil && req.Request != nil && req.Request.URL != nil && servicesLock(c) >= 0
 //@ requires services: forall(0, len(c.webServices), func(i int) bool { return matchersOK(c.webServices[i]) })
 //@ ensures fresh: fresh(result)
+// C17/C09: exactly the methods of the routes that match the URL (root expression on the path, route expression on
+// what it leaves over, nothing but an optional "/" left): nothing else is listed, nothing is missing
+//@ ensures S/sound: forall(0, len(result), func(m int) bool { return exists(0, len(c.webServices), func(i int) bool { return svcAllows(c.webServices[i], req.Request.URL.Path, result[m]) }) })
+//@ ensures K/complete: forall(0, len(c.webServices), func(i int) bool { return forallStr(func(me string) bool { return svcAllows(c.webServices[i], req.Request.URL.Path, me) ==> exists(0, len(result), func(m int) bool { return result[m] == me }) }) })
 //@ modifies nothing
 //@ nopanic
 //@ loop 0 invariant fresh: fresh(methods)
+//@ loop 0 invariant S/sound: forall(0, len(methods), func(m int) bool { return exists(0, len(c.webServices), func(i int) bool { return svcAllows(c.webServices[i], requestPath, methods[m]) }) })
+//@ loop 0 invariant K/complete: forall(0, it_i, func(i int) bool { return forallStr(func(me string) bool { return svcAllows(c.webServices[i], requestPath, me) ==> exists(0, len(methods), func(m int) bool { return methods[m] == me }) }) })
 //@ loop 1 invariant fresh: fresh(methods)
+//@ loop 1 invariant member: it_o < len(c.webServices) && ws == c.webServices[it_o] && jsrSvcHit(ws, requestPath) && finalMatch == jsrFinal(ws, requestPath)
+//@ loop 1 invariant S/sound: forall(0, len(methods), func(m int) bool { return exists(0, len(c.webServices), func(i int) bool { return svcAllows(c.webServices[i], requestPath, methods[m]) }) })
+//@ loop 1 invariant K/complete: forall(0, it_o, func(i int) bool { return forallStr(func(me string) bool { return svcAllows(c.webServices[i], requestPath, me) ==> exists(0, len(methods), func(m int) bool { return methods[m] == me }) }) })
+//@ loop 1 invariant K/partial: forall(0, it_i, func(j int) bool { return jsrRouteHit(ws.routes[j], finalMatch) ==> exists(0, len(methods), func(m int) bool { return methods[m] == ws.routes[j].Method }) })
 
 //@ func (*CrossOriginResourceSharing).doPreflightRequest
 //@ props C09 C19
@@ -1006,6 +1016,8 @@ package restful
 //@ callsite (*FilterChain).ProcessFilter other: req.Request.Method != "OPTIONS" && arg0 == chain && arg1 == req && arg2 == resp && same(mapVal(hdrOf(resp.ResponseWriter)), old(mapVal(hdrOf(resp.ResponseWriter))))
 // Allow and Access-Control-Allow-Methods carry the same list: the methods computeAllowedMethods returns, joined by ","
 //@ callsite (Response).AddHeader allow: arg1 == "Allow" || arg1 == "Access-Control-Allow-Methods" ==> arg2 == methods
+// ... and that list is computed for this container and this request
+//@ callsite (*Container).computeAllowedMethods computed: arg0 == c && arg1 == req
 
 // ---------------------------------------------------------------------------
 // C14: a trailing slash does not change the tokens of a path (default strategy)
@@ -1191,3 +1203,40 @@ package restful
 //@ modifies nothing
 //@ nopanic
 //@ opt opaque ctAdmits acceptAdmits noEmptyEntry
+
+// C04 (RouterJSR311): the i-th variable name is bound to the i-th group of the match, nothing else is bound
+//@ func (RouterJSR311).extractParams
+//@ props C04 C18
+//@ requires pathExpr != nil
+//@ ensures fresh: result != nil && fresh(result)
+//@ ensures keys: forallStr(func(k string) bool { return strMapHas(result, k) == exists(1, len(matches), func(i int) bool { return groupBinds(pathExpr.VarNames, i) && pathExpr.VarNames[i-1] == k }) })
+//@ ensures vals: forall(1, len(matches), func(i int) bool { return groupBinds(pathExpr.VarNames, i) && lastBinding(pathExpr.VarNames, len(matches), i) ==> result[pathExpr.VarNames[i-1]] == matches[i] })
+//@ modifies nothing
+//@ nopanic
+//@ loop 0 invariant fresh: params != nil && fresh(params) && 1 <= i && (i <= len(matches) || i == 1)
+//@ loop 0 invariant keys: forallStr(func(k string) bool { return strMapHas(params, k) == exists(1, i, func(i1 int) bool { return i1 < len(matches) && groupBinds(pathExpr.VarNames, i1) && pathExpr.VarNames[i1-1] == k }) })
+//@ loop 0 invariant vals: forall(1, i, func(i1 int) bool { return i1 < len(matches) && groupBinds(pathExpr.VarNames, i1) && lastBinding(pathExpr.VarNames, i, i1) ==> params[pathExpr.VarNames[i1-1]] == matches[i1] })
+
+// C04 (RouterJSR311): variables of the root expression are bound to its groups on the URL path, variables of the
+// route expression to its groups on what the root expression left over; a route variable wins over a root
+// variable of the same name; nothing else is bound. (Which text the groups capture is A-JSR.)
+//@ func (RouterJSR311).ExtractParameters
+//@ props C04 C18
+//@ requires route != nil && webService != nil && jsrSvcOK(webService) && jsrRouteOK(*route)
+//@ requires matched: jsrSvcHit(webService, urlPath)
+//@ ensures fresh: result != nil && fresh(result)
+//@ ensures route-vals: forall(1, rxSubN(route.pathExpr.Matcher, jsrFinal(webService, urlPath)), func(i int) bool { return groupBinds(route.pathExpr.VarNames, i) && lastBinding(route.pathExpr.VarNames, rxSubN(route.pathExpr.Matcher, jsrFinal(webService, urlPath)), i) ==> strMapHas(result, route.pathExpr.VarNames[i-1]) && result[route.pathExpr.VarNames[i-1]] == rxSubAt(route.pathExpr.Matcher, jsrFinal(webService, urlPath), i) })
+//@ ensures root-vals: forall(1, rxSubN(webService.pathExpr.Matcher, urlPath), func(i int) bool { return groupBinds(webService.pathExpr.VarNames, i) && lastBinding(webService.pathExpr.VarNames, rxSubN(webService.pathExpr.Matcher, urlPath), i) && !routeBinds(route, webService, urlPath, webService.pathExpr.VarNames[i-1]) ==> strMapHas(result, webService.pathExpr.VarNames[i-1]) && result[webService.pathExpr.VarNames[i-1]] == rxSubAt(webService.pathExpr.Matcher, urlPath, i) })
+//@ ensures keys: forallStr(func(k string) bool { return strMapHas(result, k) == (routeBinds(route, webService, urlPath, k) || rootBinds(webService, urlPath, k)) })
+//@ modifies nothing
+//@ nopanic
+//@ loop 0 invariant maps1: pathParameters != nil && fresh(pathParameters)
+//@ loop 0 invariant maps2: routeParams != nil && fresh(routeParams)
+//@ loop 0 invariant maps3: !same(pathParameters, routeParams)
+//@ loop 0 invariant unchanged: unchangedSinceRange(routeParams)
+//@ loop 0 invariant vis-keys: forallStr(func(k string) bool { return visited(k) ==> strMapHas(routeParams, k) })
+//@ loop 0 invariant done: forallStr(func(k string) bool { return visited(k) ==> strMapHas(pathParameters, k) && pathParameters[k] == routeParams[k] })
+//@ loop 0 invariant rest-keys: forallStr(func(k string) bool { return !visited(k) ==> strMapHas(pathParameters, k) == rootBinds(webService, urlPath, k) })
+//@ loop 0 invariant rest-vals: forall(1, len(webServiceMatches), func(i int) bool { return groupBinds(webServiceExpr.VarNames, i) && lastBinding(webServiceExpr.VarNames, len(webServiceMatches), i) && !visited(webServiceExpr.VarNames[i-1]) ==> pathParameters[webServiceExpr.VarNames[i-1]] == webServiceMatches[i] })
+//@ loop 0 invariant route-keys: forallStr(func(k string) bool { return strMapHas(routeParams, k) == routeBinds(route, webService, urlPath, k) })
+//@ loop 0 invariant route-vals: forall(1, len(routeMatches), func(i int) bool { return groupBinds(routeExpr.VarNames, i) && lastBinding(routeExpr.VarNames, len(routeMatches), i) ==> routeParams[routeExpr.VarNames[i-1]] == routeMatches[i] })
